@@ -5,5 +5,12 @@ cd "$(dirname "$0")"
 export CARGO_NET_OFFLINE=true
 ( cd driver && cargo +nightly build --offline 2>&1 | tail -3 )
 test -x driver/target/debug/pkv-mirdump
+# facts of the library shims (generic MIR of safe stand-ins for raw-pointer based core::slice APIs)
+T=$(mktemp -d)
+( cd shims && LD_LIBRARY_PATH="$(rustc +nightly --print sysroot)/lib" RUSTFLAGS="-Zmir-opt-level=0 -Awarnings" \
+    RUSTC_WORKSPACE_WRAPPER="$PWD/../driver/target/debug/pkv-mirdump" PKV_OUT="$PWD/facts.json" PKV_CRATE=pkv_shims \
+    CARGO_TARGET_DIR="$T" cargo +nightly check --offline --lib --quiet )
+rm -rf "$T"
+test -s shims/facts.json
 mkdir -p evidence replay
-echo "setup ok: $(ls -la driver/target/debug/pkv-mirdump | awk '{print $5}') byte driver"
+echo "setup ok: driver $(ls -la driver/target/debug/pkv-mirdump | awk '{print $5}') bytes, shims facts $(wc -c < shims/facts.json) bytes"
